@@ -56,6 +56,12 @@ def check_cases(cases: list[dict], rep: Report, known: dict) -> None:
             rep.count("battery-results", k, v)
         for (h, p), out in zip(configs[1:], outs[1:]):
             rep.corr_checked += 1
+            if len(out) == len(ref) and out != ref:
+                # a query that hit the time limit in one process (machine load) decides nothing
+                tm = [j for j, (a, b) in enumerate(zip(out, ref)) if a != b and "!timeout" in (a, b)]
+                if tm:
+                    rep.skip("impl-timeout", len(tm))
+                    out = [r if j in set(tm) else o for j, (o, r) in enumerate(zip(out, ref))]
             if out != ref:
                 if len(out) != len(ref):
                     rep.violation(f"battery under PYTHONHASHSEED={h}, permutation {p} has {len(out)} results instead of {len(ref)}",
